@@ -95,6 +95,11 @@ def gen_script(rng):
 
 
 CORPUS = [
+    # a connectSync past its own timeout, still inside its timeout path, while the last owner goes away
+    "S O1:60;D;?;U1;?",
+    "S O1:60;C2;D;W2;?;N3:c;U1;?",
+    "S O1:60;E;D;?;U1;?",
+    "S O1:40;U1;D;?",
     "S R1:20000;C2;F3;D;W2;N4:r;?;S1;X3;?",
     "S R1:20000;C2;E;D;W1;W2;?",
     "S C1;C2;R3:20000;R4:350;D;T4;W1;W2;N5:c;S3;?",
